@@ -400,6 +400,21 @@ def check_ids(repo, fi, allocating_callees):
                 if v in [x for x, _ in literals[ns]]:
                     report('literal-id-duplicate', n, f'literal {ns} id {v} is used twice in {fi.qual}')
                 literals[ns].append((v, n))
+    # a literal (or never-advanced) id handed to a constructor inside a loop is reused by every iteration
+    def _in_loop(root, target, inside=False):
+        for c in ast.iter_child_nodes(root):
+            if c is target:
+                return inside
+            r = _in_loop(c, target, inside or isinstance(c, (ast.For, ast.While, ast.ListComp, ast.GeneratorExp,
+                                                               ast.SetComp, ast.DictComp)))
+            if r is not None:
+                return r
+        return None
+    for ns in literals:
+        for v, n in literals[ns]:
+            if _in_loop(fnode, n):
+                report('id-reuse', n, f'`{norm(n)[:100]}`: the {ns} id {v} is constant but the constructor call sits in a loop '
+                                      f'(every iteration would reuse it)')
     inits = {}
     for n in ast.walk(fnode):
         if isinstance(n, ast.Assign):
